@@ -462,19 +462,38 @@ impl Model for char {
     }
 }
 
+/// A valid UTF-8 string of `n` characters whose widths (1..=3 bytes) are concrete shape choices
+/// and whose code points are symbolic: built bytewise so that no symbolic length ever exists.
+pub fn arb_utf8(sh: &mut Shape) -> Vec<u8> {
+    let n = sh.choice(sh.maxs + 1);
+    let mut v: Vec<u8> = Vec::new();
+    let mut i = 0;
+    while i < n {
+        let w = sh.choice(3) + 1;
+        let c = sym::char_of_width(w as usize) as u32;
+        if w == 1 {
+            v.push(c as u8);
+        } else if w == 2 {
+            v.push(0xC0 | (c >> 6) as u8);
+            v.push(0x80 | (c & 0x3f) as u8);
+        } else {
+            v.push(0xE0 | (c >> 12) as u8);
+            v.push(0x80 | ((c >> 6) & 0x3f) as u8);
+            v.push(0x80 | (c & 0x3f) as u8);
+        }
+        i += 1;
+    }
+    v
+}
+
 impl Model for String {
     fn arb(sh: &mut Shape) -> Self {
-        let n = sh.choice(sh.maxs + 1);
-        let mut s = String::new();
-        let mut i = 0;
-        while i < n {
-            let w = sh.choice(3) + 1;
-            let c = sym::char_();
-            sym::assume(c.len_utf8() == w as usize);
-            s.push(c);
-            i += 1;
-        }
-        s
+        let v = arb_utf8(sh);
+        #[cfg(not(kani))]
+        assert!(std::str::from_utf8(&v).is_ok());
+        // valid by construction (checked natively above); avoids running the validator on the
+        // harness side of the query
+        unsafe { String::from_utf8_unchecked(v) }
     }
     fn enc(&self, b: &mut Buf) {
         b.str_(self.as_bytes());
@@ -491,7 +510,20 @@ impl Model for String {
         }
     }
     fn same(&self, o: &Self) -> bool {
-        self.as_bytes() == o.as_bytes()
+        let a = self.as_bytes();
+        let b = o.as_bytes();
+        if a.len() != b.len() {
+            return false;
+        }
+        let mut i = 0;
+        let mut eq = true;
+        while i < a.len() {
+            if a[i] != b[i] {
+                eq = false;
+            }
+            i += 1;
+        }
+        eq
     }
 }
 
@@ -711,7 +743,6 @@ impl<T: Model> Model for LinkedList<T> {
         }
     }
     fn dec(r: &mut Rd) -> Option<Self> {
-        struct NotByte<T>(T);
         let n = r.vari()?;
         let mut out = LinkedList::new();
         if n == -1 {
@@ -729,7 +760,6 @@ impl<T: Model> Model for LinkedList<T> {
                 }
                 i += 1;
             }
-            let _ = NotByte(0u8);
             None
         } else if n < -1 || n as usize > DEC_MAX {
             None
